@@ -87,20 +87,45 @@ theorem scaling_outside (s x : Rat) (h : 1001 / 100000000 < |s - 1|) : scaleF s 
 
 /-! ### combined model -/
 
-/-- `combined_eq_compose`: a combined model is the sequential composition of its parts -/
-theorem combined_eq_compose (ms₁ ms₂ : List M) (sig : List Pixel) :
-    applyAll (ms₁ ++ ms₂) sig = applyAll ms₂ (applyAll ms₁ sig) ∧ applyAll [] sig = sig ∧
-      ∀ m, applyAll [m] sig = m.apply sig := by
-  simp [applyAll, List.foldl_append]
+/-- `combined_eq_compose`: `CombinedModel.__call__` (the executed model `callAll`: values and element type) is the
+sequential composition of its parts -/
+theorem combined_eq_compose (ms₁ ms₂ : List M) (labs : List Nat) (d : DType) (xs : List Rat) :
+    callAll (ms₁ ++ ms₂) labs d xs = callAll ms₂ labs (callAll ms₁ labs d xs).1 (callAll ms₁ labs d xs).2 ∧
+    callAll [] labs d xs = (d, xs) ∧ ∀ m, callAll [m] labs d xs = (m.outDType d, m.call labs xs) := by
+  simp [callAll, List.foldl_append]
 
-/-- … pixel by pixel: every pixel keeps its label and runs through the models in order -/
-theorem combined_pixelwise (ms : List M) (sig : List Pixel) :
-    applyAll ms sig = sig.map fun p => ms.foldl (fun q m => ⟨q.label, m.applyPix q⟩) p := by
-  induction ms generalizing sig with
-  | nil => simp [applyAll]
+/-- … pixel by pixel for label-free models: every value runs through the models in order -/
+theorem combined_pixelwise (ms : List M) (hhom : ∀ m ∈ ms, m.isHet = false) (labs : List Nat) (d : DType) (xs : List Rat) :
+    (callAll ms labs d xs).2 = xs.map fun x => ms.foldl (fun v m => m.applyPix ⟨0, v⟩) x := by
+  induction ms generalizing d xs with
+  | nil => simp [callAll]
   | cons m ms ih =>
-    have : applyAll (m :: ms) sig = applyAll ms (m.apply sig) := rfl
-    rw [this, ih]; simp [M.apply, List.map_map, Function.comp]
+    have hm : m.call labs xs = xs.map fun x => m.applyPix ⟨0, x⟩ := by
+      cases m <;> simp_all [M.call, M.isHet]
+    have : callAll (m :: ms) labs d xs = callAll ms labs (m.outDType d) (m.call labs xs) := rfl
+    rw [this, ih (fun m' h => hhom m' (by simp [h])), hm]
+    simp [List.map_map, Function.comp]
+
+/-- **extra call arguments** (`CombinedModel.__call__(img, *args)`, the `co_argcount != 2` branch): a parameter
+model is handed no extra argument, a `StaticThresholdModel` exactly the first one (its mask); so a combination of
+parameter models ignores `args` altogether (it is `callAll`), the call composes over concatenation with the
+same `args`, and a threshold stage is thresholding with the mask `args[0]` (none if no extra argument). -/
+theorem combined_extra_args (ms : List M) (sts₁ sts₂ : List Stage) (labs : List Nat) (args : List (List Bool))
+    (d : DType) (xs : List Rat) (lo : Rat) (hi : Option Rat) (rf : Bool) :
+    callStages (ms.map Stage.model) labs args d xs = callAll ms labs d xs ∧
+    callStages (sts₁ ++ sts₂) labs args d xs
+      = callStages sts₂ labs args (callStages sts₁ labs args d xs).1 (callStages sts₁ labs args d xs).2 ∧
+    callStages [.thrHom lo hi rf] labs args d xs = boolVals (thrFinish rf args.head? (thrHomCall lo hi xs)) := by
+  refine ⟨?_, by simp [callStages, List.foldl_append], ?_⟩
+  · induction ms generalizing d xs with
+    | nil => simp [callStages, callAll]
+    | cons m ms ih =>
+      have h1 : callStages ((m :: ms).map Stage.model) labs args d xs
+          = callStages (ms.map Stage.model) labs args (m.outDType d) (m.call labs xs) := by
+        simp [callStages, Stage.call, Stage.extraArity]
+      have h2 : callAll (m :: ms) labs d xs = callAll ms labs (m.outDType d) (m.call labs xs) := rfl
+      rw [h1, h2, ih]
+  · cases args <;> simp [callStages, Stage.call, Stage.extraArity]
 
 /-- `routing_all`: with at least `Σ num_parameters` entries, updating "all" succeeds and gives model `i`
 exactly the `i`-th consecutive slice of the flat vector (slice lengths = the models' `num_parameters`);
